@@ -186,10 +186,11 @@ def gen_fn(fn):
 def generate(table_json, out_path):
     js = json.load(open(table_json))
     parts = ["// GENERATED by translate/capi_calls.py from %s -- do not edit" % table_json]
-    for fn in js["functions"]:
+    usable = [fn for fn in js["functions"] if not fn.get("unreadable")]
+    for fn in usable:
         parts.append(gen_fn(fn))
     parts.append("static const Entry ENTRIES[] = {")
-    for fn in js["functions"]:
+    for fn in usable:
         parts.append('  {"%s", call_%s, %d},' % (fn["name"], fn["name"], len(fn["params"])))
     parts.append("};")
     txt = "\n".join(parts) + "\n"
